@@ -1,5 +1,7 @@
 """C17 - no input makes Breadlog panic or hang; unreadable files are skipped."""
 import hashlib
+import random
+import zlib
 import re
 
 from .. import core, corpus, scen, world
@@ -18,7 +20,7 @@ LEVEL_NOTE = "Trusted: panic = exit status 101 / abort signal / 'panicked at' on
 RULE = ("case = 1-3 corpus files (tests/rust_data, src) each with 1-5 seeded mutations (some left intact), one intact sibling with a "
         "missing reference, optional empty / >1 MiB file, mode check|edit, optional fail on OPEN_R/READ of one source file. "
         "Non-trivial = at least one mutated or faulted file; distinct = case index.")
-PROBES = ["many_files", "unicode_padding", "unicode_messages", "invalid_utf8_file", "read_fault_injected", "unreadable_file_skipped", "empty_file", "large_file", "multibyte_before_bang",
+PROBES = ["many_files", "unicode_padding", "unicode_messages", "invalid_utf8_file", "read_fault_injected", "unreadable_file_skipped", "empty_file", "large_file", "multibyte_before_bang", "unicode_tail",
           "edit_mode", "check_mode"]
 ASSUMPTIONS = ["files <= ~1.5 MiB count as 'ordinary shape' for the 20 s bound"]
 DEADLINE = {"quick": 200, "thorough": 3300}
@@ -91,6 +93,13 @@ def gen(rng):
                                           [None] * 5, unicode_p=0.9)
         files["proj/src/uni_pad.rs"] = world.segs_bytes(segs)
         tags.add("unicode_padding")
+        # in half of these, more than 64 KiB of mostly multi-byte text FOLLOWS the last statement as well: the copy of the
+        # remainder of a file is the rewriter's largest single write (round N). The decision and the tail come from a
+        # generator of their own, seeded by the file's content, so that the case streams of earlier rounds do not shift.
+        r2 = random.Random(zlib.crc32(files["proj/src/uni_pad.rs"]))
+        if r2.random() < 0.5:
+            files["proj/src/uni_pad.rs"] += world.make_pad(r2, r2.choice([70000, 140000, 300000]), unicode_p=0.95).encode("utf-8")
+            tags.add("unicode_tail")
     if rng.random() < 0.012:
         # a great many small readable files (counts around powers of two)
         for j in range(rng.choice([256, 513, 600, 1025])):
